@@ -2,7 +2,7 @@
    ProofsC12.v / ProofsC13.v.  Every theorem is about [run] / [step] of Window/Run.v,
    i.e. the very definitions the correspondence check evaluates against the Rust code. *)
 From Coq Require Import Sorted.
-From VP Require Import Base.Tactics Window.Model Window.Run Window.Spec Window.ProofsC12 Window.ProofsC13.
+From VP Require Import Base.Tactics Window.Model Window.Run Window.Spec Window.ProofsC12 Window.ProofsC13 Window.ProofsPart.
 Open Scope Z_scope.
 
 (* ------------------------------------------------------------------ C12 *)
@@ -53,6 +53,25 @@ Proof.
   intros b x E. destruct b; discriminate.
 Qed.
 
+(* The partitioned forms (PartitionedTumblingWindow, PartitionedSessionWindow, the partitioned
+   count window of engine/types.rs): for every key, the events of that key in the closed
+   windows (closed by arrivals, by watermark / expiry sweeps over all partitions, or by flush),
+   followed by what the key's partition still holds, are exactly the key's arrivals in
+   arrival order -- for every op sequence. *)
+Definition pclosing_kind (k : kind) : Prop :=
+  match k with KPTumbling _ | KPSession _ | KPCount _ => True | _ => False end.
+
+Theorem C12_partition_partitioned : forall k ops outs s key,
+  pclosing_kind k -> run (init k) ops = (outs, s) ->
+  of_key key (concat (all_windows outs)) ++ pbuffered key s = of_key key (arrivals ops).
+Proof.
+  intros k ops outs s key Hk Hr.
+  assert (Hi : pstate_inv (init k)).
+  { destruct k; try contradiction; cbn; (split; [constructor | intros k0 w H; discriminate]). }
+  pose proof (prun_partition _ _ _ _ Hi Hr key) as H.
+  destruct k; try contradiction; exact H.
+Qed.
+
 (* The hypotheses are satisfiable by non-trivial inputs, and the conclusions are not vacuous. *)
 Example C12_example_ops : list op :=
   [Add (mkEv 0 0 (-1)); Add (mkEv 1 2 (-1)); Add (mkEv 2 2 (-1)); Add (mkEv 3 3 (-1)); Wm 7;
@@ -70,6 +89,11 @@ Example C12_example_windows :
   /\ add_windows C12_example_ops (fst (run (init (KCount 3)) C12_example_ops))
   = [[mkEv 0 0 (-1); mkEv 1 2 (-1); mkEv 2 2 (-1)]; [mkEv 3 3 (-1); mkEv 4 7 (-1); mkEv 5 9 (-1)]].
 Proof. vm_compute. repeat split. Qed.
+Example C12_example_partitioned :
+  let ops := [Add (mkEv 0 0 1); Add (mkEv 1 1 2); Add (mkEv 2 2 1); Add (mkEv 3 4 1); Wm 5; Add (mkEv 4 5 2); Flush] in
+  all_windows (fst (run (init (KPTumbling 3)) ops))
+  = [[mkEv 0 0 1; mkEv 2 2 1]; [mkEv 1 1 2]; [mkEv 3 4 1]; [mkEv 4 5 2]].
+Proof. vm_compute. reflexivity. Qed.
 
 (* ------------------------------------------------------------------ C13 *)
 (* For every (size, slide) and every in-order stream (ties allowed) the time-sliding window
